@@ -3,7 +3,8 @@
    Print Assumptions.  Model: Model/Semaphore.v (counting_semaphore.cpp after the F1 fix,
    sliding_semaphore.cpp, detail condition variable, both agent instances). *)
 From Coq Require Import List ZArith Bool.
-From Pika Require Import Base.Conc Base.Agent Model.Semaphore Proofs.SemaphoreProofs Proofs.SemaphoreScenarios.
+From Pika Require Import Base.Conc Base.Agent Model.Semaphore Proofs.SemaphoreProofs Proofs.SemaphoreScenarios
+  Proofs.SemaphoreProgress Proofs.SemaphoreSyncWait.
 Import ListNotations.
 Local Open Scope Z_scope.
 
@@ -106,3 +107,91 @@ Example C08_example :
   value (fst c) = 0 /\ acquired (fst c) = 2 /\ released (fst c) = 2 /\
   map ev_res (slog (fst c)) = [false; true; true; true] /\ map ev_tid (slog (fst c)) = [0%nat; 0%nat; 2%nat; 1%nat].
 Proof. vm_compute. repeat split; reflexivity. Qed.
+
+(* ---------------------------------------------------------------------------------------------
+   Progress half (safety form).  [stuck]: no thread can take a non-stutter step, whatever the
+   deadline oracle says.  [pub_progs]: the public API — acquire / try_acquire_for,until (count 1),
+   try_acquire, release(n >= 0), plus stale resumes from anybody at any time (weak agent contract);
+   try_wait(n >= 0) is allowed too.  [os_untimed]: OS-thread agents run no timed acquire (with one,
+   C08_os_timed_acquire_deadlock_refuted = finding F14 is the counterexample).
+   In every reachable stuck state, for every mix of pika tasks / OS threads, thread count, program
+   and schedule: no acquirer is blocked while a permit is available; more precisely every thread
+   has either finished its whole program or is blocked in acquire() with value = 0; the lock is
+   free, no wake-up is in flight (popped = []), no signal loop is active, and
+   value = initial + released - acquired: every released permit was consumed or is in the count
+   with nobody waiting — no permit and no wake-up is lost between a waiter's enqueue and the
+   signaller's notify loop. *)
+Theorem C08_no_blocked_with_permits : forall kind sched v0 lo0 md progs,
+  0 <= v0 -> pub_progs progs -> os_untimed kind progs ->
+  let c := sem_run kind sched v0 lo0 md progs in
+  stuck kind (fst c) (snd c) ->
+  (forall t n, waiting_for (snd c t) (CAcq n) -> value (fst c) < n) /\
+  (forall t, finished (snd c t) \/ (pc (snd c t) = Blk (CAcq 1) /\ value (fst c) = 0)) /\
+  value (fst c) = v0 + released (fst c) - acquired (fst c) /\
+  holder (fst c) = None /\ popped (fst c) = [] /\ tot (sigl (fst c)) = 0.
+Proof. exact no_blocked_with_permits. Qed.
+Print Assumptions C08_no_blocked_with_permits.
+
+(* with mixed counts on the detail API (wait(l,2), wait(l,1) queued, signal(l,1)) the statement is
+   false: stuck, value = 1, the count-1 waiter blocked behind the re-queued count-2 waiter.
+   Not a defect of the public API (all counts are 1 there). *)
+Theorem C08_no_blocked_with_permits_mixed_counts_refuted :
+  let c := sem_run all_os mixed_sched 0 0 0 mixed_progs in
+  wf_progs mixed_progs /\ os_untimed all_os mixed_progs /\
+  stuck all_os (fst c) (snd c) /\ waiting_for (snd c 1%nat) (CAcq 1) /\ value (fst c) = 1 /\
+  pc (snd c 0%nat) = Blk (CAcq 2) /\ pc (snd c 1%nat) = Blk (CAcq 1) /\ queue (fst c) = [1; 0]%nat /\
+  released (fst c) = 1 /\ acquired (fst c) = 0 /\ holder (fst c) = None /\ popped (fst c) = [] /\ sigl (fst c) = [].
+Proof. exact no_blocked_with_permits_mixed_counts_refuted. Qed.
+Print Assumptions C08_no_blocked_with_permits_mixed_counts_refuted.
+
+(* sliding semaphore, ANY program (also mixed with counting operations of any count): in every
+   reachable stuck state no waiter with upper - max_difference <= lower is blocked; every thread
+   has finished or is blocked in a wait whose condition is false. *)
+Theorem C08_sliding_wait_progress : forall kind sched v0 lo0 md progs,
+  0 <= v0 -> wf_progs progs -> os_untimed kind progs ->
+  let c := sem_run kind sched v0 lo0 md progs in
+  stuck kind (fst c) (snd c) ->
+  (forall t u, waiting_for (snd c t) (CSl u) -> lower (fst c) < u - md) /\
+  (forall t, finished (snd c t) \/ exists w, pc (snd c t) = Blk w /\ forall u, w = CSl u -> lower (fst c) < u - md).
+Proof. exact sliding_wait_progress. Qed.
+Print Assumptions C08_sliding_wait_progress.
+
+(* sync_wait's binary semaphore (initial 0; x: acquire, y: release, everybody else: stale resumes):
+   in every reachable state either x has not returned (no log entry of x) or it returned exactly
+   once (one entry: true, consumed the one permit, which had been released: avail = 1), and then
+   release() has finished all its accesses: y is done, no signal loop active, lock free, every
+   further step of y is a stutter.  y never re-locks (its pc is Idle, or ResWait = still inside
+   the first critical section).  Stuck => both returned. *)
+Theorem C08_sync_wait_returns_once : forall kind sched lo md x y progs, sync_wait_progs x y progs ->
+  let c := sem_run kind sched 0 lo md progs in
+  ((xlog x (fst c) = [] /\ todo (snd c x) = [Acquire 1]) \/
+   (exists e, xlog x (fst c) = [e] /\ good_ev e /\ finished (snd c x) /\
+              released (fst c) = 1 /\ acquired (fst c) = 1 /\ value (fst c) = 0 /\
+              finished (snd c y) /\ holder (fst c) = None /\ sigl (fst c) = [] /\ queue (fst c) = [] /\
+              forall o, sem_tstep kind o y (fst c) (snd c y) = (fst c, snd c y))) /\
+  (pc (snd c y) = Idle \/ pc (snd c y) = ResWait x true 0) /\
+  (stuck kind (fst c) (snd c) -> finished (snd c x) /\ finished (snd c y)).
+Proof. exact sync_wait_returns_once. Qed.
+Print Assumptions C08_sync_wait_returns_once.
+
+(* non-vacuity of the progress theorems: hypotheses satisfiable, stuck states reachable *)
+Example C08_progress_example :
+  pub_progs ex_progs /\ os_untimed ex_kind ex_progs /\
+  let c := sem_run ex_kind [(0,false);(1,false);(0,false);(1,false);(0,false);(0,false);(1,false);(0,false);(0,false)]%nat 0 0 0 ex_progs in
+  stuck ex_kind (fst c) (snd c) /\ pc (snd c 0%nat) = Blk (CAcq 1) /\ value (fst c) = 0 /\
+  released (fst c) = 1 /\ acquired (fst c) = 1 /\ finished (snd c 1%nat) /\ todo (snd c 0%nat) = [Acquire 1].
+Proof. exact progress_example. Qed.
+
+Example C08_sliding_example :
+  wf_progs sl_progs /\ os_untimed all_os sl_progs /\
+  let c := sem_run all_os [(0,false);(0,false);(1,false);(1,false);(2,false);(2,false);(0,false);(1,false);(0,false)]%nat 0 0 1 sl_progs in
+  stuck all_os (fst c) (snd c) /\ pc (snd c 0%nat) = Blk (CSl 5) /\ finished (snd c 1%nat) /\ finished (snd c 2%nat) /\
+  lower (fst c) = 3 /\ maxd (fst c) = 1.
+Proof. exact sliding_example. Qed.
+
+Example C08_sync_wait_example :
+  sync_wait_progs 0 1 sw_progs /\
+  let c := sem_run all_task [(0,false);(0,false);(2,false);(0,false);(0,false);(1,false);(0,false)]%nat 0 0 0 sw_progs in
+  stuck all_task (fst c) (snd c) /\ finished (snd c 0%nat) /\ finished (snd c 1%nat) /\
+  map ev_tid (slog (fst c)) = [0; 1]%nat /\ map ev_sig_active (slog (fst c)) = [false; false] /\ value (fst c) = 0.
+Proof. exact sync_wait_example. Qed.
